@@ -15,6 +15,7 @@ import GE.Model.Position
 import GE.Model.Escape
 import GE.Model.Mixture
 import GE.Model.ExprParse
+import GE.Model.TagScope
 import GE.Model.ExprStr
 import GE.Model.BindingMap
 import GE.Model.CssIO
@@ -44,6 +45,36 @@ def withExpr (sx : String) (k : GE.Expr → String) : String :=
     | some e => k e
     | none => "bad-ast"
   | none => "bad-sexp"
+
+/-! reader of the template skeleton of the `tag_scopes` op -/
+open GE.TagScope in
+mutual
+partial def tnodeOfSExp : GE.Codec.SExp → Option TNode
+  | .list [.atom "other"] => some .other
+  | .list [.atom "text", .atom "none"] => some (.text none)
+  | .list [.atom "text", .list [.atom "val", .atom fl, e]] => (GE.exprOfSExp e).map fun e => .text (some ⟨fl == "1", e⟩)
+  | .list [.atom "elem", kind, .list (.atom "refs" :: refs), .list (.atom "vals" :: vals), .list (.atom "children" :: ch)] => do
+    let k ← (match kind with
+      | .atom "normal" => some Kind.normal | .atom "pure" => some Kind.pure | .atom "if" => some Kind.if_
+      | .atom "tref" => some Kind.tref | .atom "include" => some Kind.include | .atom "slot" => some Kind.slot
+      | .list [.atom "for", .str i, .str x] => some (Kind.for_ i x)
+      | _ => none)
+    let rs ← refs.mapM (fun r => match r with | .str s => some s | _ => none)
+    let vs ← vals.mapM (fun v => match v with
+      | .atom "none" => some none
+      | .list [.atom "val", .atom fl, e] => (GE.exprOfSExp e).map fun e => some ⟨fl == "1", e⟩
+      | _ => none)
+    let cl ← tlistOfSExps ch
+    some (.elem k rs vs cl)
+  | _ => none
+partial def tnodesOfSExps : List GE.Codec.SExp → Option TNodes
+  | [] => some .nil
+  | x :: r => do some (.cons (← tnodeOfSExp x) (← tnodesOfSExps r))
+partial def tlistOfSExps : List GE.Codec.SExp → Option TNodesList
+  | [] => some .nil
+  | .list (.atom "nodes" :: ns) :: r => do some (.cons (← tnodesOfSExps ns) (← tlistOfSExps r))
+  | _ => none
+end
 
 def parseCond (f : String) : Option GE.TagGen.CondItem :=
   if f == "else" then some .els
@@ -192,6 +223,20 @@ def step (fs : List String) : String :=
       match GE.Parse.parseExpr ⟨numOf⟩ (4 * ts.length + 40) ts with
       | some e => esc e.toSExp
       | none => "none"
+  | ["tag_scopes", dyn, sx] =>
+    -- (tmpl (modules "m" …) (nodes …)): what the scope / binding-map analysis leaves in every dynamic value, and the advertised fields
+    match parseSExp sx with
+    | some (.list [.atom "tmpl", .list (.atom "modules" :: ms), .list (.atom "nodes" :: ns)]) =>
+      match ms.mapM (fun r => match r with | .str s => some s | _ => none), tnodesOfSExps ns with
+      | some mods, some nodes =>
+        let st := GE.TagScope.runNodes ⟨mods, dyn.toNat?.getD 0, [], []⟩ nodes
+        let c := GE.BM.run st.ops
+        let fields := (st.recs.flatMap fun r => GE.TagScope.dataFields r.conv).eraseDups
+        let adv := fields.filter (fun f => c.advertised f)
+        esc (String.intercalate "\x01" (st.recs.map fun r => (if r.collected then "1" else "0") ++ r.conv.toSExp)) ++ "\t" ++
+          esc (String.intercalate "\x01" adv)
+      | _, _ => "bad-tree"
+    | _ => "bad-sexp"
   | ["mix_print", pieces] =>
     -- value printer model on pieces `T…` / `B…` separated by U+0001
     let ps : List GE.Mix.Piece := (if pieces.isEmpty then [] else pieces.splitOn "\x01").filterMap fun x =>
